@@ -9,7 +9,7 @@ CONSTANTS
   Budget = 1
   Shapes = {"secure3"}
   Denials = {"nsec", "nsec3"}
-  QKinds = {"positive", "wildcard", "wilddeep", "wildsub", "nodata", "nxdomain", "nxdeep", "wcnodata", "cname1", "ds", "dname"}
+  QKinds = {"positive", "wildcard", "wilddeep", "wildsub", "nxdomain", "nxdeep", "wcnodata", "ds"}
   AdvActs = {"OtherQuestion", "DropRrsig", "SwapProof"}
 SPECIFICATION Spec
 VIEW View
